@@ -44,7 +44,7 @@ var Check = &vrt.Check{
 		"(truncation, 14 substitution values, deletion, 6 insertion values at every offset in the thorough tier, strided in quick); (3) PRNG bytes and line soups. " +
 		"non-trivial = Exchange consumed the script past the handshake's first line; distinct = distinct (generator, mutant id) pairs",
 	Assumptions: []string{
-		"allocation bound: bytes allocated during the call <= 4 MiB + 4096 x bytes received (an LZHUF stream can legitimately expand ~50x)",
+		"memory bound: heap bytes allocated during the call <= 8 MiB + 1024 x bytes received (an LZHUF stream can legitimately expand ~50x, buffers double, parsing multiplies); growth of the peak resident set (stacks included) <= that + 64 MiB",
 		"spin verdict: the worker burnt >= 10 s CPU inside one Exchange call on a transcript of at most ~100 kB (the scripted link never blocks a read); slow without CPU use is inconclusive",
 		"workers run under a 6 GiB address-space limit; the runtime's fatal 'out of memory' is observed as a dead worker",
 	},
@@ -88,6 +88,18 @@ func allocBytes() uint64 {
 	return allocSample[0].Value.Uint64()
 }
 
+// memBound is the allocation a call may make for n received bytes: LZHUF can legitimately expand
+// ~50x, the decompression buffer doubles while growing, and parsing a message costs a small multiple
+// of its size; 8 MiB cover fixed costs.
+func memBound(n int) uint64 { return uint64(8<<20) + 1024*uint64(n) }
+
+// maxRSS is the process's resident-set high-water mark in bytes.
+func maxRSS() int64 {
+	var ru syscall.Rusage
+	syscall.Getrusage(syscall.RUSAGE_SELF, &ru)
+	return ru.Maxrss << 10
+}
+
 func cpuMillis() int64 {
 	var ru syscall.Rusage
 	syscall.Getrusage(syscall.RUSAGE_SELF, &ru)
@@ -126,7 +138,7 @@ func (r *runner) replay(w *b2fx.PeerWorld, script []byte, class, id string) {
 		stack []byte
 	}
 	done := make(chan result, 1)
-	a0, c0 := allocBytes(), cpuMillis()
+	a0, c0, rss0 := allocBytes(), cpuMillis(), maxRSS()
 	go func() {
 		var res result
 		defer func() {
@@ -184,8 +196,18 @@ wait:
 	} else if !stt.Closed[0] {
 		detail(o.Violate("conn-not-closed", "Exchange returned (%v) without closing the connection (%s %s)", res.err, class, id))
 	}
-	if limit := uint64(4<<20) + 4096*uint64(len(script)); alloc > limit {
+	limit := memBound(len(script))
+	if alloc > limit {
 		detail(o.Violate("alloc:"+class, "Exchange allocated %d bytes for a %d-byte remote transcript (bound %d) (%s %s)", alloc, len(script), limit, class, id))
+	}
+	// Goroutine stacks are not heap allocations: the process's resident-set high-water mark (as the
+	// kernel accounts it) catches memory of any kind. It only moves when a call exceeds every
+	// earlier peak of this worker, so it can miss, never over-report.
+	if grown := maxRSS() - rss0; grown > 0 && uint64(grown) > limit+(64<<20) {
+		detail(o.Violate("memory:"+class, "the process's peak resident set grew by %d bytes during Exchange on a %d-byte remote transcript (bound %d) (%s %s)", grown, len(script), limit+(64<<20), class, id))
+	}
+	if ratio := alloc / uint64(len(script)+1); ratio > 300 && len(script) > 4096 {
+		o.Count("replays_allocating_more_than_300x_received", 1)
 	}
 	o.Count("replays", 1)
 	if res.err == nil && res.pan == nil {
